@@ -257,5 +257,70 @@ def dao_direction(prog: Program) -> RuleResult:
     return r
 
 
+def dao_collect(prog: Program) -> RuleResult:
+    """Every element of a collection is converted and kept, by identity: no value-equality test on converted
+    or domain objects anywhere in the conversion code (DAO.__eq__ compares data columns only)."""
+    r = RuleResult("DAO-COLLECT", "collections keep every element; conversion code never compares objects by value", floor=3)
+    mod = prog.module(DAO)
+    dao = prog.cls(DAO + ".DataAccessObject")
+    st = prog.cls(DAO + ".FromDAOState")
+    # (a) element loops reach the append on every iteration that does not raise
+    for owner, mname in ((dao, "_extract_collection_relationship"), (st, "parse_collection")):
+        f = prog.method(owner.qual, mname, inherited=False)
+        cfg = CFG(f.node)
+        loops = [n for n in cfg.nodes if n.kind == "for"]
+        ok = False
+        why = "no loop over the collection"
+        for lp in loops:
+            conv = {src(x.targets[0]) for x in walk_local(f.node) if isinstance(x, ast.Assign) and isinstance(x.value, ast.Call) and call_name(x.value) in ("to_dao", "from_dao")}
+            appends = set()
+            for n in cfg.nodes:
+                if lp.id in n.loops and n.kind == "stmt":
+                    for c in calls_in(n.stmt):
+                        if call_name(c) == "append" and c.args and (src(c.args[0]) in conv or (isinstance(c.args[0], ast.Call) and call_name(c.args[0]) in ("to_dao", "from_dao"))):
+                            appends.add(n.id)
+            entry = [s_ for s_ in lp.succ if lp.id in cfg.nodes[s_].loops]
+            leak = None
+            for e in entry:
+                leak = leak or (cfg.path_avoiding(e, lp.id, appends) if e not in appends else None)
+            if appends and leak is None:
+                ok = True
+            elif appends:
+                why = f"an element can be skipped: {cfg.describe(leak)}"
+        r.check(ok, f"{f.short}#every-element-kept", site(f), "", "every element of the collection is converted and appended",
+                f"{why}: the converted collection does not have the same elements as the original")
+    # (b) no equality / membership on objects under conversion
+    hits = []
+    for f in sorted([g for g in prog.functions.values() if g.module is mod and g.cls is not None and g.cls.qual in (dao.qual, st.qual, prog.cls(DAO + ".ToDAOState").qual)], key=lambda x: x.qual):
+        if f.name in ("__eq__", "__repr__"):
+            continue
+        objs: Set[str] = set()
+        for n in walk_local(f.node):
+            if isinstance(n, ast.Assign) and isinstance(n.targets[0], ast.Name):
+                v = n.value
+                if isinstance(v, ast.Call) and (call_name(v) in ("to_dao", "from_dao", "get_existing") or (call_name(v) == "getattr" and len(v.args) >= 2 and "relationship" in src(v.args[1]))):
+                    objs.add(n.targets[0].id)
+        for n in walk_local(f.node):
+            if isinstance(n, ast.For) and isinstance(n.target, ast.Name) and isinstance(n.iter, ast.Name) and n.iter.id in objs | {"value"}:
+                objs.add(n.target.id)
+        for _ in range(2):
+            for n in walk_local(f.node):
+                if isinstance(n, ast.Assign) and isinstance(n.targets[0], ast.Name) and any(isinstance(x, ast.Name) and x.id in objs for x in ast.walk(n.value)) and isinstance(n.value, ast.Call) and call_name(n.value) in ("to_dao", "from_dao"):
+                    objs.add(n.targets[0].id)
+        for n in walk_local(f.node):
+            if isinstance(n, ast.Compare):
+                for op, a, b in zip(n.ops, [n.left] + n.comparators, n.comparators):
+                    if isinstance(op, (ast.In, ast.NotIn, ast.Eq, ast.NotEq)):
+                        if any(isinstance(x, ast.Name) and x.id in objs for x in (a, b)) or any(isinstance(x, ast.Call) and call_name(x) in ("to_dao", "from_dao") for x in (a, b)):
+                            hits.append((f, n))
+            if isinstance(n, ast.Call) and isinstance(n.func, ast.Attribute) and n.func.attr in ("index", "count", "remove") and n.args and isinstance(n.args[0], ast.Name) and n.args[0].id in objs:
+                hits.append((f, n))
+    for f, n in hits:
+        r.fail(f"{f.short}#value-comparison", site(f, n), src(n),
+               "an object under conversion is compared by value (DAO equality looks at data columns only; user equality is arbitrary): distinct objects with equal fields collapse into one")
+    r.ok("dao#identity-only", mod.relpath, "", f"{len(hits)} value comparisons on objects under conversion")
+    return r
+
+
 def run(prog: Program, tier: str) -> List[RuleResult]:
-    return [idkey(prog), dao_order(prog), dao_direction(prog)]
+    return [idkey(prog), dao_order(prog), dao_direction(prog), dao_collect(prog)]
